@@ -276,16 +276,20 @@ def apply_transition(model, sys_, tr, check=True):
             alias_ref = None
     try:
         np.random.seed(12345)
-        if op.may_raise:
-            # CPU-time guard (process virtual time, independent of machine load): numerically conditioned routines can take
-            # minutes on operands produced by earlier transitions (e.g. Krylov propagation of an unnormalised state makes
-            # expm_multiply take ~1e6 scaling steps); such a call is disabled like a raising one, its arguments are still checked
+        guard = op.may_raise and check
+        if guard:
+            # CPU-time guard (process virtual time): numerically conditioned routines can take minutes on operands produced by
+            # earlier transitions (e.g. Krylov propagation of an unnormalised state makes expm_multiply take ~1e6 scaling steps);
+            # such a call is disabled like a raising one, its arguments are still checked. The guard applies to the FIRST execution
+            # of a transition only: a transition that is part of a recorded history has completed once, and its replay (check=False)
+            # runs to completion however long it takes -- CPU time near the limit varies a little with machine load, and a replay
+            # that timed out where the first execution had not would look like a diverging history.
             signal.signal(signal.SIGVTALRM, _cpu_timeout)
             signal.setitimer(signal.ITIMER_VIRTUAL, CPU_LIMIT_S)
         try:
             res = op.run(sys_, *objs)
         finally:
-            if op.may_raise:
+            if guard:
                 signal.setitimer(signal.ITIMER_VIRTUAL, 0)
     except Exception as e:
         tb = traceback.extract_tb(sys.exc_info()[2])
